@@ -19,8 +19,9 @@ func init() {
 var extOf = map[uint8]string{1: "mvt", 2: "png", 3: "jpg", 4: "webp", 5: "avif"}
 
 // cases:
-//   find <ents> <id>                          -> some <id off len run> | none
-//   tile <datahex> <leafbase> <rootoff> <rootlen> <gz> <dirs...> <id> -> 200 <hex> | 204 | other status
+//
+//	find <ents> <id>                          -> some <id off len run> | none
+//	tile <datahex> <leafbase> <rootoff> <rootlen> <gz> <dirs...> <id> -> 200 <hex> | 204 | other status
 func c04run(line string) (string, []string) {
 	t := newToks(line)
 	switch t.s() {
